@@ -25,6 +25,11 @@ class GenuineLedger:
         self.device_key = g1.new_key(rng)
         self.att_key = None                   # set up by the endorsement dialogue
         self.cert_header = rng.randbytes(rng.choice([0, 4, 8, 20]))
+        if self.cert_header and rng.random() < 0.3:
+            # an opaque header that begins like the role byte put in front of it (0x02), like
+            # the uncompressed-key marker that follows it (0x04), or with zeros
+            self.cert_header = rng.choice([b"\x02", b"\x02\x02", b"\x04", b"\x00"]) + \
+                self.cert_header[1:]
         self.ui_hash = rng.randbytes(32)
         self.signer_hash = rng.randbytes(32)
         self.auth_signer_hash = rng.randbytes(32)
